@@ -55,6 +55,9 @@ def offclass(m, spelled):
     return "neg-frac" if mm else "neg-whole"
 
 
+IB_HOURS = {"EST": -5, "EDT": -4, "CST": -6, "CDT": -5, "MST": -7, "MDT": -6, "PST": -8, "PDT": -7}
+
+
 def lib_types():
     from ofxtools import Types
 
@@ -65,12 +68,12 @@ def py_to_ms_dt(v):
     return R.pydt_to_us(v)
 
 
-def check_read(t, DT, TM, kind, text, notation, m, spelled):
-    """kind: 'datetime'|'time'"""
+def check_read(t, DT, TM, kind, text, notation, m, spelled, ref_text=None):
+    """kind: 'datetime'|'time'; ref_text: the text the reference reads instead (same instant, notation the reference knows)"""
     t.count("evaluations")
     conv = DT if kind == "datetime" else TM
     try:
-        exp = R.read_datetime(text) if kind == "datetime" else R.read_time(text)
+        exp = R.read_datetime(ref_text or text) if kind == "datetime" else R.read_time(ref_text or text)
     except R.RefValueError as e:
         raise HarnessError(f"generator produced a text the reference rejects: {text!r}: {e}")
     cls = offclass(m, spelled)
@@ -146,6 +149,17 @@ def read_work(chunk):
                     cli = Cli(("start", "end", "asof")[(si + di + m) % 3])
                     check_read(t, cli, TM, "datetime", f"{d}115959.500[{sp}{NAMES[(si + di) % 3]}]", "ofxget-option-full", m, sp)
                     check_read(t, cli, TM, "datetime", f"{d}000001[{sp}]", "ofxget-option-offset-without-ms", m, sp)
+        elif tag == "ibzones":
+            # the form one broker sends, "[-:EST]": no number, the offset is that of the named US zone.  Every order of
+            # two different names, and all of them in a row, each on converters of its own (a statement that spans a
+            # change of daylight saving time carries two names on one field)
+            _, order = job
+            for kind, pre in (("datetime", "20240310"), ("time", "")):
+                dt, tm = lib_types()
+                for name in order:
+                    h = IB_HOURS[name]
+                    check_read(t, dt, tm, kind, f"{pre}013000.250[-:{name}]", "zone-name-only", h * 60, f"{h}:", ref_text=f"{pre}013000.250[{h}:{name}]")
+                    check_read(t, dt, tm, kind, f"{pre}013000[-:{name}]", "zone-name-only-without-ms", h * 60, f"{h}:", ref_text=f"{pre}013000[{h}:{name}]")
         elif tag == "names":
             # all names x all spellings of a few offsets
             _, m = job
@@ -472,6 +486,13 @@ def run(ctx):
     for d in BASE_DATES + edges:
         jobs.append(("plain", d))
     jobs.append(("plaintime",))
+    ib = sorted(IB_HOURS)
+    jobs.append(("ibzones", tuple(ib)))
+    jobs.append(("ibzones", tuple(reversed(ib))))
+    for a in ib:
+        for b in ib:
+            if a != b:
+                jobs.append(("ibzones", (a, b, a)))
     for m in (-720, -330, -30, -1, 0, 1, 330, 345, 840):
         jobs.append(("names", m))
     for m in range(-720, 841, 15):
